@@ -370,7 +370,7 @@ def run(ctx: Check, tree: Tree) -> None:
         "whether _collect_outer_state_helicities sees complete helicity sets (a premise of the property)",
     ]
     ctx.assumptions += ["list.remove / set.remove raise when the element is absent (CPython)"]
-    check_removes(ctx, tree)
-    check_wiring(ctx, tree)
-    check_spin_range(ctx, tree)
-    check_dpd_wiring(ctx, tree)
+    ctx.section(check_removes, ctx, tree)
+    ctx.section(check_wiring, ctx, tree)
+    ctx.section(check_spin_range, ctx, tree)
+    ctx.section(check_dpd_wiring, ctx, tree)
